@@ -88,6 +88,22 @@ Theorem place_does_not_matter :
 Proof. exact ProofsDoc.run_doc_place. Qed.
 Print Assumptions place_does_not_matter.
 
+(** Selections are independent: a request that selects the field any number of times (aliases, inline and
+    named fragments) is accepted exactly when every occurrence, taken on its own with its own arguments, is
+    accepted - each resolver then receives the value of its own arguments -, and one occurrence whose own
+    arguments are refused makes the request fail with the argument error, wherever it stands and whatever
+    the other occurrences look like. *)
+Theorem selections_independent :
+  forall b64 tdec xdec t vars vars' (d : doc) (p : pdoc) (fuel : nat),
+    apply_defaults (d_defs d) vars vars = Ok vars' -> parse_doc vars d = Ok p ->
+    let occs := flat_map (sfields fuel (d_frags d)) (d_body d) in
+    (forall vs, parse_all b64 tdec xdec t (doc_fields fuel p) = Ok vs <->
+                Forall2 (fun sf v => own_outcome b64 tdec xdec t vars' sf (Ok v)) occs vs) /\
+    (forall sf e, In sf occs -> own_outcome b64 tdec xdec t vars' sf (Err e) ->
+                  parse_all b64 tdec xdec t (doc_fields fuel p) = Err EArgs).
+Proof. exact ProofsDoc.selections_independent. Qed.
+Print Assumptions selections_independent.
+
 (** End to end for one field: Parse (defaults, argsToJson) followed by the ParseArguments call of
     PrepareQuery hands the resolver exactly the struct that was written as literals ... *)
 Theorem literal_request_echoes :
